@@ -646,7 +646,7 @@ theorem insertBitmap_ok {sz cap bits : Nat} {a : Tbl} (hb : isDense c bits = fal
               rebuild c rec (denseWithMax c mx) (.heap sz cap bits a) e
             else do
               let r ← drawM c g cap bits
-              let new ← withCapBits c g (cap + 1 + (r % cap)) bits
+              let new ← withCapBits c g (cap + 1 + c.growExtra cap + (r % cap)) bits
               rebuild c rec new (.heap sz cap bits a) e) d = .ok ((r', b), d') := by
           unfold insertBitmap at h
           rw [if_neg hc] at h
